@@ -2,6 +2,7 @@ import Femio.Model.Surface
 import Femio.Model.Obj
 import Femio.Lemmas.ObjTextProps
 import Femio.Lemmas.VolumeD
+import Femio.Lemmas.SurfaceSimilarity
 import Femio.Lemmas.SurfaceProps
 import Femio.Lemmas.NumeralProps
 import Femio.Lemmas.CoreProps
@@ -149,6 +150,47 @@ def twoTetPt : Nat → V3 Int
 example : solidMeshB [twoTetElems] = true ∧ mirrorConformingB (allFaces [twoTetElems]) = true ∧
     totalVol24 4 0 twoTetPt [twoTetElems] = 12 ∧
     sumR 0 ((boundaryUnique (allFaces [twoTetElems])).map (faceFlux24 4 0 twoTetPt)) = 12 := by decide
+
+/-! ## absolute scale and far offset (the surface itself is a function of ids and connectivity only) -/
+
+/-- **C10_flux_similarity.** ABSOLUTE SCALE: if every node is scaled by `s` (micrometre- or kilometre-sized copies of a
+    mesh), the flux of `x/3` through ANY list of triangles / quadrilaterals - in particular the volume enclosed by the
+    extracted surface, whose faces do not depend on the coordinates at all (`boundaryUnique (allFaces blocks)` has no
+    coordinate argument) - is multiplied by exactly `s³`; no hypothesis on the mesh, any commutative ring. -/
+theorem C10_flux_similarity {R : Type} [CommRing R] (s : R) (pt : Nat → V3 R) (fs : List Face) :
+    sumR 0 (fs.map (faceFlux24 4 0 (fun i => V3.smul s (pt i)))) = s ^ 3 * sumR 0 (fs.map (faceFlux24 4 0 pt)) := by
+  rw [sumR_eq_sum, sumR_eq_sum]
+  exact sum_faceFlux24_smul s pt fs
+
+/-- **C10_volume_similarity.** On a conforming solid mesh the sum of the element volumes ("centroid" kernels) scales
+    with `s³` as well, so "enclosed volume = sum of the element volumes" (`C10_volume`) holds at every absolute scale
+    with both sides transformed in the same way. -/
+theorem C10_volume_similarity {R : Type} [CommRing R] (s : R) (pt : Nat → V3 R) (blocks : List (List Elem))
+    (hsolid : solidMeshB blocks = true) (hconf : mirrorConformingB (allFaces blocks) = true) :
+    totalVol24 4 0 (fun i => V3.smul s (pt i)) blocks = s ^ 3 * totalVol24 4 0 pt blocks := by
+  rw [← C10_volume _ blocks hsolid hconf, ← C10_volume pt blocks hsolid hconf]
+  exact C10_flux_similarity s pt _
+
+/-- **C10_enclosed_volume_translate.** FAR OFFSET: on a conforming solid mesh the volume enclosed by the extracted
+    surface does not change when all nodes are translated by `t` (UTM-like coordinates), although the flux through a
+    single face does: the surface is closed.  (Exact arithmetic; the float kernels of femio that work in absolute
+    coordinates lose this far from the origin, which is what the oracle's conditioning-aware tolerance is about.) -/
+theorem C10_enclosed_volume_translate {R : Type} [CommRing R] (t : V3 R) (pt : Nat → V3 R) (blocks : List (List Elem))
+    (hsolid : solidMeshB blocks = true) (hconf : mirrorConformingB (allFaces blocks) = true) :
+    sumR 0 ((boundaryUnique (allFaces blocks)).map (faceFlux24 4 0 (fun i => V3.add (pt i) t)))
+      = sumR 0 ((boundaryUnique (allFaces blocks)).map (faceFlux24 4 0 pt)) := by
+  rw [C10_volume _ blocks hsolid hconf, C10_volume pt blocks hsolid hconf]
+  exact totalVol24_translate pt t blocks hsolid
+
+/-- non-vacuity: the two glued tets scaled by 3 enclose 27 times the volume (12 · 27 = 324), and moved by
+    (1000, -2000, 500) the same volume, while the flux through their first surface face alone changes -/
+example : sumR 0 ((boundaryUnique (allFaces [twoTetElems])).map
+      (faceFlux24 4 0 (fun i => V3.smul 3 (twoTetPt i)))) = 324 ∧
+    sumR 0 ((boundaryUnique (allFaces [twoTetElems])).map
+      (faceFlux24 4 0 (fun i => V3.add (twoTetPt i) ⟨1000, -2000, 500⟩))) = 12 ∧
+    ((boundaryUnique (allFaces [twoTetElems])).head?.map
+      (faceFlux24 4 0 (fun i => V3.add (twoTetPt i) ⟨1000, -2000, 500⟩)))
+      ≠ ((boundaryUnique (allFaces [twoTetElems])).head?.map (faceFlux24 4 0 twoTetPt)) := by decide
 
 /-! ## surface object, (element, face number) list and OBJ export describe the same faces -/
 
